@@ -365,7 +365,8 @@ func TestVerifC11(t *testing.T) {
 		"source IPs x 3 source domains and optionally a destination permit, holding them 0-7 s and releasing, started at 0-6 s, all inside a synctest bubble (virtual 5 s acquisition time-out); oracle: a " +
 		"harness-side holder count per (scope, key) never exceeds N, no panic, afterwards the full N can be acquired per scope and key. Non-trivial = two workers contend for one key of a configured scope. " +
 		"buckets: BucketSet with capacity 1-4 and 1-12 take/release operations over up to 8 distinct keys with virtual pauses up to 3 min; oracle: no panic, never a second permit for a key whose permit is held. " +
-		"endpoint and remote-target layers: see C03 (permits after SMTP sessions) and the remote unit of this check. Distinct = distinct scenario.")
+		"endpoint and remote-target layers: see C03 (permits after SMTP sessions) and the remote unit of this check (remote: 1-5 deliveries through target.remote with a limits block, ended at every stage; queue-report: the failure report of a real target.queue sent through " +
+		"'bounce { deliver_to <remote with limits>; deliver_to <archive> }' with the archive or the next hop failing at every stage while another message holds 0..N-1 permits; oracle: afterwards exactly N minus the held permits can be acquired - fewer is a leak, more a double return - and nothing was set aside as broken). Distinct = distinct scenario.")
 	ev.Run(t, r, ev.Spec[c11Scenario]{Name: "group", N: r.N, Gen: c11Gen, Run: c11Run, Info: c11Info})
 	ev.Run(t, r, ev.Spec[c11Buckets]{Name: "buckets", N: r.Scale(1, 2, 50), Gen: func(t *rapid.T) c11Buckets {
 		sc := c11Buckets{Capacity: rapid.IntRange(1, 4).Draw(t, "capacity")}
